@@ -236,11 +236,24 @@ TStress ==
     \* the totals of the phase are not replayed: the trace ends here
     /\ UNCHANGED <<now, chain, live, exited, blocked, berr, acc, conc, g>>
 
+\* ----- first-entry race: in every round several goroutines enter a never-seen resource at the same instant (clock frozen).
+\* Totals over the rounds: with all admitted entries in flight the resource's gauge is the number of entries and its pass sum
+\* the tokens requested; after all have exited the gauge is zero and every entry has contributed its completion.
+TFirstRace ==
+    /\ IsEvent("firstrace")
+    /\ LET ok == /\ Ev.escaped = 0 /\ Ev.missing = 0 /\ Ev.blocked = 0
+                 /\ Ev.entries = Ev.rounds * Ev.workers
+                 /\ Ev.conc_in = Ev.entries /\ Ev.pass = Ev.tokens
+                 /\ Ev.conc_after = 0 /\ Ev.complete = Ev.tokens
+       IN Judge(ok, [entries |-> Ev.entries, tokens |-> Ev.tokens,
+                     rule |-> "gauge in flight = entries, pass = tokens, gauge after = 0, complete = tokens, on the node of the resource entered"])
+    /\ UNCHANGED <<now, chain, live, exited, blocked, berr, acc, conc, g>>
+
 TInit ==
     /\ l = 1 /\ now = 0 /\ chain = EmptyChain /\ live = << >> /\ exited = {} /\ blocked = {} /\ berr = << >>
     /\ acc = << >> /\ conc = << >>
     /\ g = [tr |-> 0, mode |-> "", pbl |-> 500, vint |-> 1000, pint |-> 10000, silent |-> {}]
     /\ failed = FALSE
-TNext == TNew \/ TSlot \/ TEntry \/ TTerr \/ TExit \/ TTick \/ TNoop \/ TStress
+TNext == TNew \/ TSlot \/ TEntry \/ TTerr \/ TExit \/ TTick \/ TNoop \/ TStress \/ TFirstRace
 TSpec == TInit /\ [][TNext]_tvars
 =============================================================================
